@@ -74,6 +74,8 @@ func monitor(r *run) []finding {
 		switch gs(e, "ev") {
 		case "Src":
 			cur++
+		case "Restart": // the new Synchronizer knows nothing of reverts that were not yet announced
+			revSince, parentObs = nil, nil
 		case "Resp":
 			if gs(e, "r") != "err" {
 				heard[gi(e, "ver")] = true
